@@ -20,11 +20,12 @@ func init() {
 var c17BaseRules = []string{
 	`(?i)foo`, `bar`, `foo|bar`, `^foo`, `bar$`, `a(?i)b`, `(?U)a+b`, `(a|b)c`, `[a-c]+\.com`,
 	`.*\.example\.com`, `x|`, `^$`, `(?i:baz)`, `qux(?i)`,
+	`A`, `(?i:a)[^a]$`, // alternation factoring in regexp/syntax loses the fold flag when these are joined
 }
 
 var c17BaseHosts = []string{
 	"foo", "FOO", "bar", "BAR", "Bar.com", "foobar", "barfoo", "ab", "aB", "AB", "ac", "bc", "BC",
-	"abc.com", "ABC.COM", "www.example.com", "WWW.EXAMPLE.COM", "x", "", "baz", "BAZ", "qux", "QUX", "quxBAR",
+	"abc.com", "ABC.COM", "www.example.com", "WWW.EXAMPLE.COM", "x", "", "baz", "BAZ", "qux", "QUX", "quxBAR", "a", "A",
 }
 
 func c17GenRegexp(r *rand.Rand, depth int) string {
